@@ -78,6 +78,9 @@ fn parse_op(s: &str) -> Option<Op> {
     }
 }
 
+/// sizes above this are not requested from either side (memory)
+const MAX_N: usize = 1 << 24;
+
 fn is_pow2(n: usize) -> bool {
     n != 0 && n & (n - 1) == 0
 }
@@ -97,13 +100,13 @@ fn fft_size(len: usize, n: usize) -> usize {
 /// such calls are not made at all.
 fn valid(op: &Op) -> bool {
     match op {
-        Op::U(n) => *n != 0,
+        Op::U(n) => *n != 0 && *n <= MAX_N,
         Op::M(..) | Op::Mi(..) => true,
-        Op::F(v, n) => v.len() <= fft_size(v.len(), *n),
-        Op::Fi(v, n, rx, ry) => rx.len() == ry.len() && v.len() <= fft_size(v.len(), *n),
+        Op::F(v, n) => v.len() <= fft_size(v.len(), *n) && *n <= MAX_N,
+        Op::Fi(v, n, rx, ry) => rx.len() == ry.len() && v.len() <= fft_size(v.len(), *n) && *n <= MAX_N,
         Op::Inv(xs, ys) => xs.len() == ys.len() && is_pow2(xs.len()),
         Op::Ii(xs, ys, _) => xs.len() == ys.len() && is_pow2(xs.len()),
-        Op::Fm(a, b, n) | Op::Fmx(a, b, n) | Op::Fmi(a, b, n, _) => is_pow2(*n) && a.len() <= *n && b.len() <= *n,
+        Op::Fm(a, b, n) | Op::Fmx(a, b, n) | Op::Fmi(a, b, n, _) => is_pow2(*n) && *n <= MAX_N && a.len() <= *n && b.len() <= *n,
     }
 }
 
@@ -255,7 +258,68 @@ fn expected(op: &Op) -> Option<Vec<i128>> {
     }
 }
 
-fn view_of(op: &Op, used: &Out, fresh: &Out, prec_is_f32: bool) -> String {
+fn max_abs(v: &[i32]) -> u128 {
+    v.iter().map(|x| (*x as i64).unsigned_abs() as u128).max().unwrap_or(0)
+}
+
+fn prec_bound(f32_: bool) -> u128 {
+    if f32_ {
+        1_000
+    } else {
+        1_000_000_000_000
+    }
+}
+
+/// Is the VALUE of this call fixed by the property? (value call inside the literal envelope
+/// max^2 * min(len) <= bound; destination entries small; composites with non-empty operands)
+fn value_in_domain(op: &Op, f32_: bool) -> bool {
+    let env = |a: &[i32], b: &[i32]| {
+        let m = max_abs(a).max(max_abs(b));
+        m * m * (a.len().min(b.len()) as u128) <= prec_bound(f32_)
+    };
+    let small = |r: &[i64]| r.iter().all(|x| x.unsigned_abs() <= 1_000_000_000_000_000);
+    match op {
+        Op::M(a, b) => env(a, b),
+        Op::Mi(a, b, r) => env(a, b) && small(r),
+        Op::Fm(a, b, _) | Op::Fmx(a, b, _) => !a.is_empty() && !b.is_empty() && env(a, b),
+        Op::Fmi(a, b, _, r) => !a.is_empty() && !b.is_empty() && env(a, b) && small(r),
+        _ => false,
+    }
+}
+
+fn out_len(o: &Out) -> usize {
+    match o {
+        Out::IVec(v) => v.len(),
+        Out::CVec(v) => v.len(),
+        _ => 0,
+    }
+}
+
+/// Raw column: only values the property fixes are compared as values; bit patterns of fft() outputs, fft_inv of
+/// arbitrary complex input and out-of-envelope products are just a length (full digests with C04_DIAG=1: a
+/// diagnostic run recorded in the evidence, never a verdict).
+fn raw_of(op: &Op, used: &Out, diag: bool, in_dom: bool) -> String {
+    match used {
+        Out::Unit | Out::Panic(_) | Out::Invalid => show_out(used),
+        _ => {
+            if diag {
+                return show_out(used);
+            }
+            match op {
+                Op::F(..) | Op::Fi(..) | Op::Inv(..) | Op::Ii(..) => format!("len={}", out_len(used)),
+                _ => {
+                    if in_dom {
+                        show_out(used)
+                    } else {
+                        format!("len={}", out_len(used))
+                    }
+                }
+            }
+        }
+    }
+}
+
+fn view_of(op: &Op, used: &Out, fresh: &Out, prec_is_f32: bool, in_dom: bool) -> String {
     let raw = show_out(used);
     let same = if used == fresh { "fresh=same" } else { "fresh=diff" };
     match (op, used) {
@@ -275,6 +339,9 @@ fn view_of(op: &Op, used: &Out, fresh: &Out, prec_is_f32: bool) -> String {
         }
         (Op::Ii(..), _) => same.to_string(),
         (_, Out::IVec(xs)) => {
+            if !in_dom {
+                return same.to_string();
+            }
             let orc = match expected(op) {
                 Some(e) => {
                     if e.len() == xs.len() && e.iter().zip(xs.iter()).all(|(p, q)| *p == *q as i128) {
@@ -295,6 +362,8 @@ fn run_ops<F: HF>(ops: &[Op]) -> String {
     if ops.is_empty() {
         return out2("INVALID", "INVALID");
     }
+    let diag = std::env::var("C04_DIAG").is_ok();
+    let f32_ = F::NAME == "f32";
     let (last, hist) = ops.split_last().unwrap();
     let mut obj = FFT::<F>::new();
     for op in hist {
@@ -303,7 +372,8 @@ fn run_ops<F: HF>(ops: &[Op]) -> String {
     let used = call(&mut obj, last);
     let mut fresh_obj = FFT::<F>::new();
     let fresh = call(&mut fresh_obj, last);
-    out2(&show_out(&used), &view_of(last, &used, &fresh, F::NAME == "f32"))
+    let in_dom = value_in_domain(last, f32_);
+    out2(&raw_of(last, &used, diag, in_dom), &view_of(last, &used, &fresh, f32_, in_dom))
 }
 
 fn run_case(line: &str) -> String {
@@ -553,7 +623,7 @@ impl<'a> Gen<'a> {
         self.stats.bump(&format!("stream:{}", stream));
         self.stats.bump(&format!("prec:{}", prec));
         self.stats.bump(&format!("pattern:{}", pat_a));
-        self.stats.bump(&format!("size:2^{}", n.trailing_zeros()));
+        self.stats.bump(&format!("size:{}:2^{}", prec, n.trailing_zeros()));
         (self.emit)(format!("fft {} ; {}", prec, ops.join(" ; ")));
     }
 }
@@ -749,13 +819,6 @@ fn gen(args: &Args, emit: &mut dyn FnMut(String), stats: &mut Stats) {
             (g.emit)(format!("fft {} ; m {} {}", prec, join(&a), join(&b)));
         }
     }
-    // (vi) F10 witnesses: inside the literal envelope max^2*min(len) (min(len) = 1), far outside max^2*max(len)
-    {
-        let ramp = |l: i64, m: i64| -> Vec<i32> { (0..l).map(|i| ((2 * i + 1 - l) * m / l) as i32).collect() };
-        (g.emit)(format!("fft f64 ; m 1000000 {}", join(&ramp(4096, 1_000_000))));
-        (g.emit)(format!("fft f32 ; m 31 {}", join(&ramp(8192, 31))));
-        g.stats.add("stream:unbalanced-at-min-bound", 2);
-    }
     // update_n on its own and empty operands
     for n in [1usize, 2, 4, 8, 1024] {
         (g.emit)(format!("fft f64 ; u {}", n));
@@ -767,6 +830,92 @@ fn gen(args: &Args, emit: &mut dyn FnMut(String), stats: &mut Stats) {
     (g.emit)("fft f64 ; mi 1,2,3 - 5,6,7".to_string());
     (g.emit)("fft f64 ; mi 1,2,3 4,5 -".to_string());
     g.stats.add("stream:edge", 11);
+
+    // (vi) history independence far outside the envelope and, for f32, above length 1000 (where no non-zero
+    //      coefficient fits the f32 envelope): the value is not constrained (`S fresh=same`), the object's tables,
+    //      strides and twiddles at these sizes are
+    let nbig = if thorough { 90 } else { 36 };
+    for i in 0..nbig {
+        let prec = if i % 3 == 0 { "f64" } else { "f32" };
+        let kk = if thorough { 10 + (i as u32 % 8) } else { 9 + (i as u32 % 4) };
+        let p = 1usize << kk;
+        let la = [p - 1, p, p + 1, p / 2 + 1][i % 4];
+        let lb = match (i / 4) % 3 {
+            0 => 2 + g.rng.below(40) as usize,
+            1 => la,
+            _ => 2 + g.rng.below(p as u64) as usize,
+        };
+        // far outside max^2*min(len) <= bound, yet small enough for the i64 accumulation (overflow-checks are on)
+        let big = if prec == "f64" { 2_000_000 } else { 1000 };
+        let a = coeffs(&mut g.rng, la, big, PATTERNS[i % PATTERNS.len()]);
+        let b = coeffs(&mut g.rng, lb, big, "mixed");
+        let opk = ["m", "mi", "fm", "fmx", "fmi"][i % 5];
+        let (last, n) = g.measured(prec, opk, &a, &b);
+        let hist = HIST[(i / 2) % HIST.len()];
+        let mut ops = g.history(prec, hist, n);
+        ops.push(last);
+        g.stats.bump("stream:outside-envelope");
+        g.stats.bump(&format!("prec:{}", prec));
+        g.stats.bump(&format!("size:{}:2^{}", prec, n.trailing_zeros()));
+        (g.emit)(format!("fft {} ; {}", prec, ops.join(" ; ")));
+    }
+
+    // (vii) LAST (so that these cannot crowd real violations out of the report): the region BETWEEN the two
+    //       envelopes, max^2*min(len) <= bound < max^2*max(len): inside the property's literal envelope, where
+    //       multiply / multiply_into are known NOT to be exact for very unbalanced operands (known finding F10,
+    //       predicate `c04_unbalanced_between_envelopes` in checks/C04.py). Sampled on every run, fresh object,
+    //       one call per case; a failure here is the known finding, anywhere else it is a violation.
+    {
+        let ramp = |l: usize, m: i64| -> Vec<i32> { (0..l as i64).map(|i| ((2 * i + 1 - l as i64) * m / l as i64) as i32).collect() };
+        let mut shapes: Vec<(usize, usize)> = vec![];
+        let longs: &[usize] = if thorough { &[4096, 8192, 16384, 65536] } else { &[4096, 8192] };
+        for &la in &[1usize, 2, 3, 4, 16] {
+            for &lb in longs {
+                shapes.push((la, lb));
+            }
+        }
+        // mildly unbalanced pairs (ratio 1:2 .. 1:8)
+        for &(la, lb) in &[(20usize, 40usize), (7, 50), (100, 300), (33, 264), (512, 2048), (1000, 2000), (255, 1024), (3, 24)] {
+            shapes.push((la, lb));
+        }
+        let mut idx = 0usize;
+        for prec in ["f64", "f32"] {
+            let bound = bound_of(prec) as i64;
+            for &(la, lb) in &shapes {
+                // largest magnitude of the literal envelope
+                let mut m = ((bound / la as i64) as f64).sqrt() as i64;
+                while (m + 1) * (m + 1) * la as i64 <= bound {
+                    m += 1;
+                }
+                while m * m * la as i64 > bound {
+                    m -= 1;
+                }
+                if m == 0 || m * m * (lb as i64) <= bound {
+                    continue;
+                }
+                let pats: &[&str] = if lb >= 4096 { &["ramp", "allmax", "mixed", "alt"] } else { &["ramp", "mixed"] };
+                for &pat in pats {
+                    idx += 1;
+                    if !thorough && lb >= 4096 && la > 4 && pat != "ramp" {
+                        continue;
+                    }
+                    let b = if pat == "ramp" { ramp(lb, m) } else { coeffs(&mut g.rng, lb, m, pat) };
+                    let a = if la == 1 { vec![m as i32] } else { coeffs(&mut g.rng, la, m, if idx % 2 == 0 { "allmax" } else { "alt" }) };
+                    let (a, b) = if idx % 4 == 3 { (b, a) } else { (a, b) };
+                    let line = if idx % 3 == 2 {
+                        let l = a.len() + b.len() - 1;
+                        let res = g.dest(l.min(64) + (idx % 5));
+                        format!("fft {} ; mi {} {} {}", prec, join(&a), join(&b), join(&res))
+                    } else {
+                        format!("fft {} ; m {} {}", prec, join(&a), join(&b))
+                    };
+                    g.stats.bump("stream:between-envelopes");
+                    g.stats.bump(&format!("prec:{}", prec));
+                    (g.emit)(line);
+                }
+            }
+        }
+    }
 }
 
 fn main() {
